@@ -44,6 +44,7 @@ func (w *walker) reset() {
 	if err != nil {
 		w.t.Fatalf("cannot create system under test: %v", err)
 	}
+	s.ObserveCopy = os.Getenv("VERIF_OBSERVE_COPY") != ""
 	w.sys = s
 	w.cur = w.g.Init
 	w.hist = w.hist[:0]
@@ -209,6 +210,7 @@ func (w *walker) reproduce(path []int) bool {
 	if err != nil {
 		return false
 	}
+	s.ObserveCopy = os.Getenv("VERIF_OBSERVE_COPY") != ""
 	defer s.Close()
 	for i, ei := range path {
 		e := w.g.Edges[ei]
